@@ -8,7 +8,12 @@ Part 1 (equivalence, differential): a generated chain of 1-4 command segments (w
     not by xonsh).  Both run in fresh identical sessions; the traces - ordered (alias, argv, stdin)
     records, contents of redirect targets, escaping exception type - must be equal.
 Part 2 (termination, fuzz): any string through Execer.parse(text, ctx=set()): a tree / None or a
-    SyntaxError, within a hang bound; any other exception type is a failure.
+    SyntaxError, within a hang bound; any other exception type is a failure.  Two drivers: Hypothesis
+    (metacharacter-weighted text, splices / truncations of valid programs) and coverage-guided atheris
+    children (vlib/c03_atheris.py; same target, failures bucketed by exception type and innermost xonsh
+    frame instead of ending the campaign; saved inputs are re-checked here without the fuzzer).  An input
+    over the CPU bound is a hang only if it is still running after the long confirmation bound - the
+    recovery loop may double a line at each of its 25 retries and still end.
 """
 
 from __future__ import annotations
@@ -28,8 +33,9 @@ PROP = "C03"
 LEVEL = "exploration"
 RULE = ("(1) chain of 1-4 generated command segments x joiners x enclosing Python context x indentation x continuation placement, "
         "bare program vs generator-made explicit ![..] twin, traces compared; non-trivial = >= 2 segments or enclosing context not plain "
-        "top level; (2) arbitrary strings (metacharacter-weighted text, splices and truncations of valid programs) through Execer.parse; "
-        "non-trivial = the first plain parse fails so the recovery loop runs; distinct = hash of source")
+        "top level; (2) arbitrary strings (metacharacter-weighted text, splices and truncations of valid programs; plus coverage-guided "
+        "atheris/libFuzzer campaigns from an empty and from a valid-program corpus, failures bucketed so the search continues) through "
+        "Execer.parse; non-trivial = the first plain parse fails so the recovery loop runs; distinct = hash of source")
 
 WORDS = ["a", "b", "x1", "-l", "-a", "--flag", "--k=v", "k=v", "./p", "/x/y", "a.py", "1", "2.5", "a,b", "a:b", "-", "--", "+x", "%s",
          "*.zz", "n?pe", "[q]z"]
@@ -583,6 +589,65 @@ def _shrink_text(f):
     return Failure(f.kind, {"text": text}, r[1], finding=classify_fuzz(text, r[0]), bucket=bucket)
 
 
+def atheris_campaign(run):
+    """Coverage-guided children (vlib/c03_atheris.py); every saved failing input is re-checked here, without atheris."""
+    import subprocess
+
+    nchild, runs, max_len = (4, 4000, 48) if run.tier == "quick" else (16, 150000, 96)
+    nchild = min(nchild, int(os.environ.get("VERIF_PROCS", "16")))
+    env = dict(os.environ, PYTHONPATH=os.pathsep.join([common.VERIF, os.path.join(common.VERIF, ".deps")]), PYTHONHASHSEED="0")
+    probe = subprocess.run([sys.executable, "-c", "import atheris"], env=env, capture_output=True, text=True)
+    if probe.returncode != 0:
+        run.stats.notes.append("atheris is not importable here (setup.sh installs it into .deps): coverage-guided family skipped")
+        return
+    procs = []
+    for i in range(nchild):
+        sc = os.path.join(run.scratch, "ath%d" % i)
+        os.makedirs(sc, exist_ok=True)
+        out = os.path.join(sc, "out.json")
+        seeds = VALID if i % 2 else []          # half of the campaigns start from an empty corpus
+        procs.append((out, subprocess.Popen([sys.executable, "-m", "vlib.c03_atheris", out, str(runs), str(common.worker_seed(run.seed, 80 + i) % 2**31),
+                                             str(max_len), sc] + seeds, cwd=common.VERIF, env=env, stdout=subprocess.DEVNULL,
+                                            stderr=open(os.path.join(sc, "stderr.txt"), "w"))))
+    st = run.stats
+    fresh_session()
+    best = {}
+    for out, p in procs:
+        p.wait()
+        try:
+            with open(out) as f:
+                d = json.load(f)
+        except (OSError, ValueError):
+            raise common.HarnessError("atheris child left no result file (exit %s)" % p.returncode)
+        if d["executions"] < runs // 2:
+            with open(os.path.join(os.path.dirname(out), "stderr.txt")) as f:
+                tail = f.read()[-600:]
+            raise common.HarnessError("atheris child stopped after %d of %d executions (exit %s): %s" % (d["executions"], runs, p.returncode, tail))
+        st.evaluations += d["executions"]
+        st.nontrivial.update(d["hashes"])
+        st.hist["fuzz:coverage-guided"] += d["executions"]
+        st.hist["fuzz:coverage-guided:recovery"] += d["recovery"]
+        for s in d["samples"][:1]:
+            lst = st.samples.setdefault("fuzz:coverage-guided", [])
+            if len(lst) < 2:
+                lst.append({"text": s})
+        for kind, b in d["buckets"].items():
+            if kind not in best or len(b["text"]) < len(best[kind]["text"]):
+                best[kind] = b
+    os.chdir(common.VERIF)
+    for kind, b in best.items():
+        text = b["text"]
+        r = parse_only(text)
+        if r is not None and r[0] == "hang":
+            r = confirm_hang(text, st)
+        if r is None:
+            st.inconclusive += 1
+            st.notes.append("coverage-guided bucket %s did not reproduce outside the fuzzer: %r" % (kind, text[:80]))
+            continue
+        f = Failure("hang" if r[0] == "hang" else "internal-exception", {"text": text}, r[1], finding=classify_fuzz(text, r[0]), bucket=r[0])
+        st.fail(_shrink_text(f))
+
+
 # ----------------------------------------------------------------------------------------
 
 
@@ -615,6 +680,8 @@ def main(run):
     common.pool_map(run, __name__, "worker_equiv", [(common.worker_seed(run.seed, w), per, run.scratch) for w in range(nw)])
     perf = run.n(2500, 120000)
     common.pool_map(run, __name__, "worker_fuzz", [(common.worker_seed(run.seed, 40 + w), perf, run.scratch) for w in range(nw)])
+    _setup(run.scratch)
+    atheris_campaign(run)
     run.assumptions += [
         "command names are aliases that exist only in the alias table (never bound as Python names)",
         "a case whose explicit ![..] twin is itself a SyntaxError is a generator discard",
